@@ -26,7 +26,7 @@ import (
 // genesis block installs a VBFT configuration made of validator keys owned by the harness, so that blocks can be
 // executed by the real ExecuteBlock and committed by the real AddBlock.
 
-const nValidators = 4
+const nValidators = 7
 
 type env struct {
 	accs  []*account.Account // consensus validators (genesis peers)
@@ -151,7 +151,12 @@ func invokeTx(contract common.Address, method string, args []byte, nonce uint32,
 }
 
 func rawInvokeTx(code []byte, nonce uint32, signers []common.Address) *types.Transaction {
+	return rawInvokeTxPayer(code, nonce, signers, common.ADDRESS_EMPTY)
+}
+
+func rawInvokeTxPayer(code []byte, nonce uint32, signers []common.Address, payer common.Address) *types.Transaction {
 	tx := &types.Transaction{
+		Payer:   payer,
 		Version: types.CURR_TX_VERSION,
 		TxType:  types.Invoke,
 		Payload: &payload.InvokeCode{Code: code},
